@@ -26,8 +26,8 @@ Definition eval_src (m : mtag) (P : mparams) (x y : list float) : option float :
   | M_hellinger => Some (src_hellinger FNum x y)
   | M_haversine => Some (match src_haversine FNum FPy x y with Some v => v | None => nan end)
   | M_poincare => Some (src_poincare FNum FPy x y)
-  | M_symmetric_kl => None
-  | M_ll_dirichlet => None
+  | M_symmetric_kl => Some (src_symmetric_kl FNum x y (p_z P))
+  | M_ll_dirichlet => Some (src_ll_dirichlet FNum FPy x y)
   | M_hamming => Some (src_hamming FNum x y)
   | M_jaccard => Some (src_jaccard FNum x y)
   | M_matching => Some (src_matching FNum x y)
